@@ -31,6 +31,7 @@ RULE = (
     "chain in all 4 runs; with both on the sentinels are present (positive control). Non-trivial: >= 2 construct "
     "kinds with at least one nested; distinct by case."
 )
+RULE += (" File names are written relative, absolute and in docutils' '<...>' standard-include form.")
 ASSUMPTIONS = [
     "docutils front end (publish_doctree / publish_string html5), halt_level=5",
     "file reads are observed through the CPython audit event 'open' (covers io.open, Path.read_text, urllib file://)",
@@ -271,11 +272,14 @@ def marker_paths(doc, markers):
     return found
 
 
-def run_one(text, src, R, F):
+def run_one(text, src, R, F, suppress=None):
     from docutils import nodes
 
     settings = {"raw_enabled": R, "file_insertion_enabled": F, "myst_enable_extensions": EXTS,
                 "myst_footnote_sort": False}
+    if suppress:
+        # the security switches are docutils', not MyST warnings: silencing MyST's warnings switches nothing back on
+        settings["myst_suppress_warnings"] = list(suppress)
     _OPENED.clear()
     doc, warn = front.docutils_publish(text, source_path=src, settings=settings)
     opened_tree = list(_OPENED)
@@ -299,7 +303,7 @@ def check_case(acc, case, pc=None) -> list[dict]:
         for R in (True, False):
             for F in (True, False):
                 try:
-                    results[(R, F)] = run_one(text, src, R, F)
+                    results[(R, F)] = run_one(text, src, R, F, case.get("suppress"))
                 except Exception as exc:  # noqa: BLE001
                     vs.append(mk(f"C20:render-raises:{type(exc).__name__}", case, "document",
                                  f"raw_enabled={R} file_insertion_enabled={F}: {type(exc).__name__}: {exc}"))
@@ -429,7 +433,11 @@ def case_st(draw):
         if "foot" in it["wrap"]:
             it["wrap"] = ["foot"] + [w for w in it["wrap"] if w != "foot"]
         items.append(it)
-    return {"items": items}
+    case = {"items": items}
+    sup = draw(st.sampled_from([None, None, ["myst"], ["myst.*"], ["myst.raw", "myst.strikethrough"], ["docutils", "ref"]]))
+    if sup:
+        case["suppress"] = sup
+    return case
 
 
 def _pc_check(pc):
